@@ -177,6 +177,9 @@ def reset() -> None:
 
 
 def install():
+    import os
+    if os.environ.get("VERIF_REAL_RAY") == "1":
+        return sys.modules.get("ray")        # thorough tier of C08: traces under the real ray
     if "ray" in sys.modules and getattr(sys.modules["ray"], "__verif_stand_in__", False):
         return sys.modules["ray"]
     m = types.ModuleType("ray")
